@@ -22,22 +22,28 @@ from common import compare, load_corpus
 RULE = ("Histories of register / re-register / POST update / PUT / DELETE / GET / endpoint and "
         "resource lookup / time advance over endpoint names n1..n3 and sectors none/s1/s2, "
         "with valid and invalid parameters (lt numeric, negative, non-numeric, duplicated; base "
-        "explicit, duplicated; ep/d missing, duplicated or given on update; unknown keys; "
-        "filter-only keys; bodies with wrong or missing Content-Format, unparsable or present "
-        "on POST; anonymous remote). Order: corpus, a boundary table enumerated in full "
-        "(every lt/grace deadline at -1/0/+1 tick after register, re-register, POST, PUT and "
-        "failed writes; every 4.xx kind on a new key, an existing key, POST and PUT; path reuse; "
-        "default lt 90000), then random histories from env.rng whose time steps aim at pending "
-        "deadlines -1/0/+1 tick; up to 15 % of the random histories come from a malformed "
-        "stream (valueless options, exotic lt spellings, odd bases, pagination, wildcards) that "
-        "the model mostly refuses (out-of-model) but the oracle still judges. A history is "
-        "non-trivial when it has a successful write, a 4.xx answer or an expiry, and a lookup "
-        "listing at least one registration; distinct by the full op list.")
+        "explicit, duplicated, unresolvable (unpaired bracket); ep/d missing, duplicated or given "
+        "on update; unknown keys; filter-only keys; options WITHOUT a value (?flag, ?lt, ?base, "
+        "?ep, ?d, ?count, ?page, ?rt ...) on registrations, POST, PUT and lookups; values with "
+        "quotes and backslashes; bodies with wrong or missing Content-Format, unparsable, with "
+        "unresolvable link targets, or present on POST; anonymous remote). Order: corpus, a "
+        "boundary table enumerated in full (every lt/grace deadline at -1/0/+1 tick after "
+        "register, re-register, POST, PUT and failed writes; every refusal kind on a new key, an "
+        "existing key, POST and PUT; every valueless option x every kind of write x every "
+        "deadline that write could have produced, followed by a plain update and its deadline; "
+        "path reuse; default lt 90000), then random histories from env.rng whose time steps aim "
+        "at pending deadlines -1/0/+1 tick (valueless options, quoted values and bad bases are "
+        "part of the ordinary stream); up to 15 % of the random histories come from a malformed "
+        "stream (exotic lt spellings, odd bases, pagination, wildcards, proxy) that the model "
+        "refuses (out-of-model) but the oracle still judges. A history is non-trivial when it "
+        "has a successful write, an error answer or an expiry, and a lookup listing at least one "
+        "registration; distinct by the full op list.")
 TRUSTED = ["harness/c20_vloop.py virtual clock (asyncio timers fired by moving time())",
            "the harness-side link-format reader used to canonicalise payloads"]
-ASSUMPTIONS = ["proxy mode, simple registration, pagination, wildcard/valueless filters, explicit "
-               "anchor attributes, bases other than scheme://authority and lt spellings other than "
-               "[+-]?[0-9]+ below 2^40 are out-of-model (judged by the oracle only)",
+ASSUMPTIONS = ["proxy mode, simple registration, page/count with a value, wildcard filters, explicit "
+               "anchor attributes, bases other than scheme://authority (authority a name or a "
+               "bracketed IPv6 literal, or with an unpaired bracket: refused) and lt spellings other "
+               "than [+-]?[0-9]+ below 2^40 are out-of-model (judged by the oracle only)",
                "iteration order of the directory is not part of the property: lookup results are "
                "compared as sorted lists"]
 
@@ -45,7 +51,9 @@ TPS = 8                      # ticks per second of the virtual clock
 RD = ("resourcedirectory", "")
 EPL = ("endpoint-lookup", "")
 RESL = ("resource-lookup", "")
-GARBAGE = [b"garbage", b"\xff\xfe", b'</a>;x="unterminated']
+# payloads the directory must refuse with 4.00 although Content-Format says link-format: not UTF-8 / not
+# link-format (g, g1, g2), or link-format whose targets can not be resolved against any base (g3, g4, g5)
+GARBAGE = [b"garbage", b"\xff\xfe", b'</a>;x="unterminated', b"<//[>", b'</a>;anchor="//["', b"</ok>,<coap://[::1/x>"]
 
 EPS = ["n1", "n2", "n3"]
 DS = [None, None, "s1", "s2"]
@@ -53,6 +61,10 @@ REMOTES = ["coap://[2001:db8::1]", "coap://[2001:db8::2]:61616"]
 BASES = ["coap://h1", "coap://[2001:db8::7]:5683", "coaps://node.example"]
 LT_OK = ["0", "1", "2", "5", "60", "-14", "-15", "-16", "-20", "+7", "007", "90000"]
 LT_BAD = ["abc", "", "1.5", "-", "0x10", "1e3", "5-", "+"]
+BASES_BAD = ["coap://[", "coap://[2001:db8::7", "coap://h1]", "coaps://]:5683"]      # urlsplit: "Invalid IPv6 URL"
+# values that need escaping inside a link-format quoted-string
+QUOTY = ["a\\", 'a\\"b', 'q"uo\\te', '"', "\\\\", 'x;y,z="w"', "C:\\dir\\"]
+VALUELESS = ["foo", "lt", "base", "ep", "d", "count", "page", "rt", "et", "href"]
 HREFS = ["/a", "/b", "/s/t", "/"]
 RTS = ["temp", "light-lux core.s", "x"]
 IFS = ["sensor", "core.s core.a"]
@@ -80,17 +92,6 @@ def body_token(body):
                                for h, attrs in pl) if pl else cf + "e"
 
 
-def has_valueless_attr(ops):
-    """a registered link with an attribute without value (`</x>;rt`, legal RFC 6690): the model's links carry
-    key=value pairs only; such histories are judged by the oracle alone"""
-    for op in ops:
-        body = op[3] if op[0] == "R" else op[4] if op[0] in "UP" else None
-        if body and not isinstance(body[1], str):
-            if any(v is None for _, attrs in body[1] for _, v in attrs):
-                return True
-    return False
-
-
 def op_token(op):
     k = op[0]
     rem = lambda r: "!" if r is None else hx(r)
@@ -106,16 +107,19 @@ def op_token(op):
 QUOTED = r'"((?:[^"\\]|\\.)*)"'
 LINK_RE = re.compile(r'<([^>]*)>((?:;[^=;,"]+(?:=' + QUOTED.replace("(", "(?:", 1) + r')?)*)(?:,|$)')
 ATTR_RE = re.compile(r';([^=;,"]+)(?:=' + QUOTED + r')?')
+UNESCAPE_RE = re.compile(r"\\(.)", re.S)            # RFC 6690 / RFC 2616 quoted-pair: backslash + any character
 
 
 def read_links(text):
-    """Own reader for the link-format the directory emits: [(href, [(key, value|None)])] or None."""
+    """Own reader for the link-format the directory emits: [(href, [(key, value|None)])] or None.
+    Quoted-strings are read as RFC 6690 defines them: every quoted-pair stands for its second character (a
+    reader that only undid `\\"` would take the directory's own escaping habits for granted)."""
     out, pos = [], 0
     while pos < len(text):
         m = LINK_RE.match(text, pos)
         if not m or m.end() == pos:
             return None
-        out.append((m.group(1), [(a.group(1), None if a.group(2) is None else a.group(2).replace('\\"', '"'))
+        out.append((m.group(1), [(a.group(1), None if a.group(2) is None else UNESCAPE_RE.sub(r"\1", a.group(2)))
                                  for a in ATTR_RE.finditer(m.group(2))]))
         pos = m.end()
     return out
@@ -167,6 +171,7 @@ class Impl:
         self.common = self.site.common_rd
         self.grace = rd.CommonRD.Registration.grace_period
         self.ticks = 0
+        self.exceptions = []
 
     def close(self):
         import asyncio
@@ -206,7 +211,8 @@ class Impl:
         if isinstance(pl, str):
             payload = b"" if pl == "e" else GARBAGE[int(pl[1:] or 0) % len(GARBAGE)]
         else:
-            payload = ",".join("<%s>" % h + "".join((';%s' % k) if v is None else (';%s="%s"' % (k, v))
+            esc = lambda v: v.replace("\\", "\\\\").replace('"', '\\"')
+            payload = ",".join("<%s>" % h + "".join((';%s' % k) if v is None else (';%s="%s"' % (k, esc(v)))
                                                    for k, v in attrs)
                                for h, attrs in pl).encode()
         return cf, payload
@@ -240,7 +246,9 @@ class Impl:
 
     def token(self, k, r):
         if isinstance(r, Exception):
-            return "X:" + type(r).__name__
+            # what the stack makes of an exception that is no RenderableError: 5.00 Internal Server Error
+            self.exceptions.append(type(r).__name__)
+            return "E500"
         code = r.code.class_ * 100 + (int(r.code) & 0x1F)
         if code >= 400:
             return f"E{code}"
@@ -279,13 +287,27 @@ class Impl:
         a = self.aiocoap
         e = self.request(a.GET, EPL)
         s = self.request(a.GET, RESL)
-        el = None if isinstance(e, Exception) else read_links(e.payload.decode("utf-8"))
-        sl = None if isinstance(s, Exception) else read_links(s.payload.decode("utf-8"))
-        return el, sl
+        def content(r):
+            if isinstance(r, Exception) or r.code != a.CONTENT:
+                return None
+            try:
+                return read_links(r.payload.decode("utf-8"))
+            except UnicodeDecodeError:
+                return None
+        return content(e), content(s)
 
 
 # ---------------------------------------------------------------------------------------------
 # the oracle: a reference resource directory
+
+def join(base, href):
+    """RFC 3986 resolution for the reference; a pair that can not be resolved resolves to a marker no lookup
+    can show (an accepted registration with such a pair then fails the snapshot rule)"""
+    try:
+        return urljoin(base, href)
+    except ValueError:
+        return "!unresolvable:" + base + "|" + href
+
 
 class Reference:
     """RFC 9176 registrations as a dict (ep, d) -> entry, driven by the observed response codes."""
@@ -392,6 +414,20 @@ class Reference:
                 if token.startswith("L["):
                     return f"lookup {op_token(op)} lists {token}, live registrations give L[{want}]"
                 return f"lookup {op_token(op)} was answered {token} instead of listing L[{want}]"
+            if want is None:
+                # criteria the reference does not interpret (valueless, wildcard, unknown keys, pagination):
+                # whatever they select, a lookup lists live registrations only, each as last written ...
+                if token.startswith("L["):
+                    whole = show_links(self.ep_view(), True, True) if k == "E" else show_links(self.res_view(), False, True)
+                    pool = whole.split(";") if whole else []
+                    for ent in (token[2:-1].split(";") if len(token) > 3 else []):
+                        if ent not in pool:
+                            return (f"filtered lookup {op_token(op)} lists {ent}, which is no live registration "
+                                    f"as last written (L[{whole}])")
+                        pool.remove(ent)
+                # ... and a lookup that asks for no page must not fail
+                elif token.startswith("E5") and not any(i[0] in ("page", "count") for i in op[1]):
+                    return f"lookup {op_token(op)} failed ({token})"
         return ""
 
     # what the unfiltered lookups must show
@@ -409,7 +445,7 @@ class Reference:
             if keys is not None and key not in keys:
                 continue
             for h, at in e["links"]:
-                out.append((urljoin(e["base"], h), at))
+                out.append((join(e["base"], h), at))
         return out
 
     def lookup(self, kind, query):
@@ -422,7 +458,7 @@ class Reference:
             conds.append(tuple(i))
         res = []
         for key, e in self.regs.items():
-            links = [(urljoin(e["base"], h), at) for h, at in e["links"]]
+            links = [(join(e["base"], h), at) for h, at in e["links"]]
 
             def reg_ok(k, v):
                 if k in ("ep", "d"):
@@ -447,7 +483,9 @@ class Reference:
 
     def check_snapshot(self, el, sl):
         if el is None or sl is None:
-            return "an unfiltered lookup failed or was unreadable"
+            return ("lookups-broken: the unfiltered " + " and ".join(
+                n for n, l in (("endpoint lookup", el), ("resource lookup", sl)) if l is None) +
+                " failed or cannot be read as link-format")
         got = show_links(el, True, True)
         want = show_links(self.ep_view(), True, True)
         if got != want:
@@ -487,15 +525,16 @@ def judge(impl, ops):
             stats["e4xx"] += 1
         if tok.startswith("L[") and len(tok) > 3:
             stats["listed"] += 1
-        if tok.startswith("X:"):
+        if tok == "E500":
             stats["exc"] = stats.get("exc", 0) + 1
-        if not verdict and is_write and (tok.startswith("E4") or tok.startswith("X:")):
+        if not verdict and is_write and (tok.startswith("E4") or tok.startswith("E5")):
             # an unsuccessful write -- refused with 4.xx, or failed with an exception (answered 5.00) -- is not
             # "the latest successful write" of anything: the directory must be what it was
             after = (impl.dump(), impl.snapshot())
             if after != before:
-                verdict = (f"op {idx} {op_token(op)} was answered {tok} but changed the directory: "
-                           f"{before[0]} -> {after[0]}")
+                what = (f"{before[0]} -> {after[0]}" if after[0] != before[0] else
+                        f"lookups showed {before[1]}, now {after[1]}")
+                verdict = f"op {idx} {op_token(op)} was answered {tok} but changed the directory: {what}"
                 vkey = ("4xx-changed-state:" if tok.startswith("E4") else "failed-write-changed-state:") + op[0]
         v = ref.observe(op, tok)
         if op[0] == "T" and len(ref.regs) < live_before:
@@ -505,7 +544,7 @@ def judge(impl, ops):
         if not verdict:
             v = ref.check_snapshot(*impl.snapshot())
             if v:
-                verdict, vkey = f"after op {idx} {op_token(op)}: {v}", "snapshot:" + v.split(" ")[0]
+                verdict, vkey = f"after op {idx} {op_token(op)}: {v}", "snapshot:" + v.split(" ")[0].rstrip(":")
         # errors inside timer tasks (e.g. an overflowing sleep for lt=10**400) are counted by the
         # caller (`task_errors`) but are outside the property
     return tokens, impl.dump(), verdict, vkey, stats
@@ -596,6 +635,10 @@ def boundary_table(grace):
     bad_queries = [[["lt", "abc"]], [["lt", ""]], [["lt", "1"], ["lt", "2"]], [["base", BASES[0]], ["base", BASES[1]]],
                    [["rt", "x"]], [["href", "/x"]], [["page", "0"]], [["count", "1"]], [["anchor", "/"]],
                    [["lt", "5"], ["rt", "x"]], [["foo", "bar"], ["lt", "x1"]]]
+    # a base no link can be resolved against (lookups resolve the links of ALL registrations: had such a write been
+    # accepted, everybody's lookups would fail from then on), alone and with parameters that must not be applied
+    bad_queries += [[["base", b]] for b in BASES_BAD] + [[["base", BASES_BAD[0]], ["lt", "5"], ["foo", "new"]],
+                                                          [["lt", "5"], ["base", BASES_BAD[1]]]]
     for bq in bad_queries:
         base = [reg("n1", lt=60, extra=[("foo", "old")]), reg("n2", "s1", lt=60, links=L2)]
         cases.append(base + [["R", REMOTES[0], [["ep", "n1"]] + bq, LF(L2)]] + looks +
@@ -607,10 +650,75 @@ def boundary_table(grace):
         cases.append([reg("n1", lt=60), ["R", REMOTES[0], q, LF(L2)]] + looks +
                      [["U", 1, REMOTES[0], [["ep", "n1"]], NOBODY], ["U", 1, REMOTES[0], [["d", "s9"]], NOBODY],
                       ["P", 1, REMOTES[0], [["ep", "n1"]], LF(L2)]] + looks)
-    for body in (["n", "e"], ["n", "g"], ["o", "g"], ["o", "e"], ["l", "g"], ["l", "g1"], ["l", "g2"], ["l", "e"]):
+    for body in (["n", "e"], ["n", "g"], ["o", "g"], ["o", "e"], ["l", "g"], ["l", "g1"], ["l", "g2"], ["l", "e"],
+                 ["l", "g3"], ["l", "g4"], ["l", "g5"], ["n", "g3"]):
         cases.append([reg("n1", lt=60), ["R", REMOTES[0], [["ep", "n1"], ["lt", "5"]], body]] + looks +
                      [["R", REMOTES[0], [["ep", "n2"]], body], ["P", 1, REMOTES[0], [["lt", "5"]], body],
                       ["U", 1, REMOTES[0], [["lt", "5"]], body], ["G", 1], ["T", (5 + g) * TPS]] + looks)
+    # links may stay while the base under them changes: a base the EXISTING links can not be resolved against,
+    # given on POST, on PUT with and without new links, and on re-registration; filtered lookups afterwards
+    flt = [["E", [["rt", "temp"]]], ["S", [["rt", "temp"]]], ["E", [["href", "/reg/1/"]]], ["S", [["ep", "n2"]]]]
+    for b in BASES_BAD:
+        cases.append([reg("n1", lt=60), reg("n2", "s1", lt=60, links=L2, extra=[("base", BASES[0])]),
+                      ["U", 1, REMOTES[0], [["base", b]], NOBODY]] + looks + flt +
+                     [["U", 2, REMOTES[0], [["base", b], ["lt", "1"]], NOBODY]] + looks + flt +
+                     [["P", 1, REMOTES[0], [["base", b]], LF([])]] + looks + flt +
+                     [["P", 2, REMOTES[0], [["base", b]], LF(L1)]] + looks + flt +
+                     [reg("n1", lt=5, extra=[("base", b)])] + looks + flt +
+                     [reg("n3", lt=5, extra=[("base", b)], links=[])] + looks + flt +
+                     [["G", 1], ["G", 2], ["T", (60 + g) * TPS - 1]] + looks + [["T", 1]] + looks)
+    # link targets urllib resolves against one base but not against another (`////[` is a path under coap://h1, an
+    # authority under a base without scheme): the base changes under the links, the links under the base
+    for href, b in (("////[", "?"), ("////]]", "."), ("////[/", "/]")):
+        cases.append([reg("n1", lt=60), reg("n2", lt=60, links=[[href, [["rt", "temp"]]]], extra=[("base", BASES[0])])] +
+                     looks + flt + [["U", 2, REMOTES[0], [["base", b]], NOBODY]] + looks + flt +
+                     [["P", 2, REMOTES[0], [["base", b]], LF([[href, []]])]] + looks + flt +
+                     [["R", REMOTES[0], [["ep", "n3"], ["base", b]], LF([[href, []]])]] + looks + flt +
+                     [["P", 1, REMOTES[0], [["base", b]], LF(L1)], ["P", 1, REMOTES[0], [], LF([[href, []]])]] + looks + flt)
+    # options without a value (`?flag`, `?lt`, `?base`, `?ep`, `?d`, `?count`, ...): every such option on every
+    # kind of write, looked at around every deadline that write could have produced had it (partly) taken effect
+    # (the old timer, or a new one from t = 5 s with the old, the given or the default lifetime); then the same
+    # followed by a plain update, around the deadlines THAT could have
+    for k in VALUELESS:
+        q = [[k], ["foo", "new"]] if k == "lt" else [[k], ["lt", "30"]]
+        for how in ("Rnew", "Rold", "U", "P"):
+            w = {"Rnew": ["R", REMOTES[0], [["ep", "n3"]] + q, LF(L2)],
+                 "Rold": ["R", REMOTES[0], [["ep", "n1"]] + q, LF(L2)],
+                 "U": ["U", 1, REMOTES[1], q, NOBODY],
+                 "P": ["P", 1, REMOTES[1], q, LF(L2)]}[how]
+            pre = [reg("n1", lt=20, extra=[("foo", "old")]), reg("n2", "s1", lt=60, links=L2), ["T", 5 * TPS], w] + \
+                looks + [["E", [[k]]], ["S", [[k]]], ["G", 1]]
+            for dl in sorted({(20 + g) * TPS, (5 + 30 + g) * TPS, (5 + 20 + g) * TPS}):
+                cases.append(around(pre, dl, elapsed=5 * TPS))
+            if how == "Rold":
+                cases.append(around(pre, (5 + 90000 + g) * TPS, elapsed=5 * TPS))
+            pre2 = pre + [["U", 1, REMOTES[0], [], NOBODY]] + looks
+            for dl in sorted({(5 + 30 + g) * TPS, (5 + 20 + g) * TPS}):
+                cases.append(around(pre2, dl, elapsed=5 * TPS))
+    # ... and on lookups, over registrations that have parameters and link attributes without value
+    LV2 = [["/x", [["obs", None], ["rt", "temp"]]], ["/y", [["rt", None], ["flag", None]]]]
+    regs_v = [["R", REMOTES[0], [["ep", "n1"], ["flag"], ["lt", "60"]], LF(L1)],
+              ["R", REMOTES[0], [["ep", "n2"], ["d"], ["et"], ["lt", "60"]], LF(LV2)],
+              reg("n3", "s1", lt=60, links=L2, extra=[("flag", "1")])]
+    crit = [[[k]] for k in VALUELESS + ["flag", "obs", "if", "anchor"]] + \
+        [[["flag"], ["ep", "n1"]], [["flag"], ["flag", "1"]], [["flag"], ["flag"]], [["count"], ["page"]],
+         [["count"], ["count"]], [["page"], ["page"]], [["page"], ["ep", "n2"]], [["d"], ["ep", "n2"]],
+         [["obs"], ["rt", "temp"]], [["flag", "1"]], [["flag", ""]], [["et"], ["d"]], [["ep"], ["ep", "n1"]]]
+    for part in (crit[:9], crit[9:18], crit[18:]):
+        cases.append(regs_v + looks + [[kind, qq] for qq in part for kind in "ES"] +
+                     [["U", 1, REMOTES[0], [["flag", "2"]], NOBODY], ["X", 2]] + looks +
+                     [[kind, qq] for qq in part for kind in "ES"])
+    # `?ep=n1&d` is n1 without sector: it replaces (and is replaced by) the registration `?ep=n1`, at one location
+    cases.append([reg("n1", lt=60), ["R", REMOTES[0], [["ep", "n1"], ["d"]], LF(L2)]] + looks +
+                 [reg("n1", "s1", lt=60), reg("n1", lt=5)] + looks + [["T", (5 + g) * TPS]] + looks)
+    # values that need escaping in the link-format the lookups answer with: as registration parameters (register,
+    # POST, PUT) and as link attributes (register, PUT); every lookup must stay readable and show them as written
+    for v in QUOTY:
+        cases.append([reg("n1", lt=60, extra=[("note", v)], links=[["/a", [["title", v], ["rt", "temp"]]]]), reg("n2", lt=60)] +
+                     looks + [["G", 1], ["E", [["note", v]]], ["S", [["title", v]]],
+                              ["U", 2, REMOTES[0], [["note", v]], NOBODY]] + looks +
+                     [["P", 2, REMOTES[0], [["memo", v]], LF([["/b", [["title", v]]], ["/c", [["title", "plain"]]]])]] + looks +
+                     [["G", 2], ["E", [["note", v]]], ["S", [["title", v]]], ["E", [["rt", "temp"]]], ["X", 1]] + looks)
     # anonymous remote: explicit base required, also on updates of an implicit base
     cases.append([["R", None, [["ep", "n1"]], LF(L1)], ["R", None, [["ep", "n1"], ["base", BASES[0]]], LF(L1)]] + looks +
                  [["U", 1, None, [], NOBODY], reg("n2"), ["U", 2, None, [["lt", "5"]], NOBODY],
@@ -653,6 +761,10 @@ def rand_links(rng):
             attrs.append(["if", rng.choice(IFS)])
         if rng.random() < 0.2:
             attrs.append(["ct", rng.choice(["0", "40"])])
+        if rng.random() < 0.08:
+            attrs.append([rng.choice(["obs", "rt", "flag"]), None])
+        if rng.random() < 0.05:
+            attrs.append(["title", rng.choice(QUOTY)])
         out.append([rng.choice(HREFS), attrs])
     return out
 
@@ -687,10 +799,17 @@ def rand_params(rng, malformed):
         if rng.random() < 0.1:
             q.append(["base", rng.choice(BASES)])
             valid = False
+    elif rng.random() < 0.03:
+        q.append(["base", rng.choice(BASES_BAD)])
+        valid = False
     if rng.random() < 0.3:
-        q.append([rng.choice(["foo", "et", "if"]), rng.choice(["a", "b", "oic.d", "core.s core.a"])])
+        q.append([rng.choice(["foo", "et", "if"]), rng.choice(["a", "b", "oic.d", "core.s core.a"] + QUOTY[:3])])
         if rng.random() < 0.2:
             q.append(["foo", "z"])
+    if rng.random() < 0.08:                                                 # an option without a value
+        k = rng.choice(VALUELESS + ["foo", "foo", "flag"])
+        q.append([k])
+        valid = valid and k in ("foo", "flag", "et")
     if rng.random() < 0.06:
         q.append([rng.choice(["rt", "href", "page", "count", "anchor"]), "x"])
         valid = False
@@ -702,7 +821,7 @@ def rand_params(rng, malformed):
             q.append(["lt", rng.choice(["1_0", " 5", "5 ", "٣", str(10 ** 30), str(2 ** 40), "-" + str(2 ** 40)])])
             lt = None
         elif m == 2:
-            q.append(["base", rng.choice(["xyz", "coap://h1/p/", "http://h/", "", "coap://h1/"])])
+            q.append(["base", rng.choice(["xyz", "coap://h1/p/", "http://h/", "", "coap://h1/", "?", ".", "/]", "coap://[zz]"])])
         elif m == 3:
             q.append(["proxy", rng.choice(["on", "yes", "no"])])
         elif m == 4:
@@ -805,6 +924,10 @@ def rand_history(rng, grace, malformed):
                           rng.choice(["a", "oic.d", "core.s", "sensor", "40", REMOTES[0] + "/", REMOTES[0]])])
             if rng.random() < 0.2:
                 q.append(rng.choice([["ep", rng.choice(EPS)], ["d", "s1"], ["rt", "x"], ["rt", "temp"]]))
+            if rng.random() < 0.1:
+                q.append([rng.choice(VALUELESS + ["foo", "flag", "obs", "if"])])
+                if rng.random() < 0.2:
+                    q.append(list(q[-1]))
             if malformed and rng.random() < 0.3:
                 q.append(rng.choice([["page", "0"], ["count", "1"], ["page", "0"], ["rt", "core.*"], ["ep", "n*"], ["foo"], ["ep"]]))
                 if q[-1] == ["page", "0"]:
@@ -821,6 +944,7 @@ def run_case(aiocoap, ops):
     try:
         tokens, dump, verdict, vkey, stats = judge(impl, ops)
         stats["task_errors"] = len(impl.loop.errors)
+        stats["exceptions"] = sorted(set(impl.exceptions))
         return " ".join(tokens) + " | " + dump, verdict, vkey, stats, impl.grace
     finally:
         impl.close()
@@ -850,12 +974,9 @@ def run(env, rep):
     for src, ops in cases:
         out, verdict, vkey, stats, g = run_case(aiocoap, ops)
         case = {"ops": ops}
-        if has_valueless_attr(ops):
-            rep.count("oracle-only:valueless-link-attribute")
-        else:
-            lines.append(f"C20 {g} {TPS} " + " ".join(op_token(op) for op in ops))
-            impl_outs.append(out)
-            recs.append(case)
+        lines.append(f"C20 {g} {TPS} " + " ".join(op_token(op) for op in ops))
+        impl_outs.append(out)
+        recs.append(case)
         nontrivial = (stats["write_ok"] > 0 and (stats["e4xx"] > 0 or stats["expired"] > 0) and stats["listed"] > 0)
         rep.case(case, nontrivial=nontrivial, sample_every=150)
         rep.count("source=" + src)
@@ -868,6 +989,15 @@ def run(env, rep):
             rep.count("histories-with-expiry")
         if stats["task_errors"]:
             rep.count("histories-with-task-errors")
+        for cls in stats["exceptions"]:
+            rep.count("answered-5.00-for=" + cls)
+        for op in ops:
+            q = op[2] if op[0] == "R" else op[3] if op[0] in "UP" else op[1] if op[0] in "ES" else []
+            for i in q:
+                if len(i) == 1:
+                    rep.count("valueless-option:%s:%s" % (op[0], i[0] if i[0] in VALUELESS else "other"))
+                elif '"' in i[1] or "\\" in i[1]:
+                    rep.count("value-needing-escape:" + op[0])
         if verdict:
             rep.oracle_fail(case, verdict, key=vkey)
     compare(env, rep, recs, lines, impl_outs, what="resource directory")
@@ -876,9 +1006,10 @@ def run(env, rep):
         from common import HarnessError
         raise HarnessError("malformed stream exceeds 50 % of the cases")
     # every kind of answer the model can give must have been exercised (boundary table guarantees it)
-    missing = [k for k in ("C", "H", "D", "E400", "E404", "E415", "T", "G[", "L[")
+    missing = [k for k in ("C", "H", "D", "E400", "E404", "E415", "E500", "T", "G[", "L[")
                if not rep.hist.get("response=" + k)]
-    if missing or not rep.hist.get("histories-with-expiry"):
+    if (missing or not rep.hist.get("histories-with-expiry")) and not (rep.oracle_failures or rep.disagreements):
+        # (an implementation that fails the property may well never give some answer: that is reported as such)
         from common import HarnessError
         raise HarnessError(f"generated histories never produced {missing or 'an expiry'}")
 
